@@ -261,8 +261,11 @@ def run(tier, rep):
     for c, r in zip(cases, out):
         err = r.get('error') or r.get('raised')
         if err:
-            benign = ('Multicomplex method only support' in err or ('num_steps' in err and 'must  be larger' in err)
-                      or ("JacobianDifferenceFunctions' object has no attribute" in err)      # Gradient/Jacobian: complex n = 3, 4 and multicomplex n = 2 have no rule
+            benign = (('Multicomplex method only support' in err and c[1] == 'multicomplex' and c[2] > 2)
+                      or ('num_steps' in err and 'must  be larger' in err and c[5] != 'default')      # a user generator with too few steps for this rule
+                      # Gradient/Jacobian have no rule for complex n = 3, 4 and multicomplex n = 2 (AttributeError before any evaluation)
+                      or ("JacobianDifferenceFunctions' object has no attribute" in err and c[0] in ('Gradient', 'Jacobian')
+                          and ((c[1] == 'complex' and c[2] in (3, 4)) or (c[1] == 'multicomplex' and c[2] == 2)))
                       or (c[0] in ('Gradient', 'Jacobian') and c[2] > 1 and 'fun did not return data of correct size' in err))
             if not benign:
                 rep.violation('raises:' + (r.get('case') or r['cfg']['key']), dict(case=r.get('case') or r['cfg']['key']), 'call raised %s' % err)
